@@ -164,7 +164,45 @@ func natErrorsIs(c *callCtx) []cont {
 
 // joinLike models errors.Join (identity=false) and multierr.New (identity=true:
 // a single non-nil error is returned as is).
+// iteLeaves flattens an if-then-else tree over literals into (condition, literal) cases.
+func iteLeaves(t *Term, cond *Term, out *[][2]*Term, budget *int) bool {
+	if t.Op == "ite" {
+		*budget--
+		if *budget < 0 {
+			return false
+		}
+		return iteLeaves(t.Args[1], And(cond, t.Args[0]), out, budget) && iteLeaves(t.Args[2], And(cond, Not(t.Args[0])), out, budget)
+	}
+	if t.Op != "int" {
+		return false
+	}
+	*out = append(*out, [2]*Term{cond, t})
+	return true
+}
+
 func joinLike(c *callCtx, identity bool) []cont {
+	// a merged state may carry a slice whose length is an if-then-else over literals: split it again here
+	if v := c.args[0]; v.K == VSlice && v.Len.Op == "ite" {
+		var cases [][2]*Term
+		budget := 8
+		if iteLeaves(v.Len, TTrue, &cases, &budget) && len(cases) > 1 {
+			var outs []cont
+			for i, cs := range cases {
+				st := c.st
+				if i < len(cases)-1 {
+					st = c.st.clone()
+				}
+				st.assume(cs[0])
+				nv := *v
+				nv.Len = cs[1]
+				nc := *c
+				nc.st = st
+				nc.args = append([]*Val{&nv}, c.args[1:]...)
+				outs = append(outs, joinLike(&nc, identity)...)
+			}
+			return outs
+		}
+	}
 	c.ex.note("A-err: errors.New/fmt.Errorf/errors.Is/errors.Join/multierr.New compose errIs as documented")
 	elems, ok := c.varargs(c.args[0])
 	st := c.st
